@@ -238,6 +238,14 @@ def check(chk):
     _start_order_and_fadeout_timer(chk, repo)
     _subscription_play_stop_same_key(chk, repo)
     # a show's lights are left as if it had never run also on the hardware: the update shortcuts of the light read the remembered fade correctly (shared with C09)
+    # a step drives its players at the step's nominal time: show_play_callback hands start_time on (child shows and fades start on the parent's
+    # timeline, not at the moment the step happened to be processed)
+    spc = repo.func("mpf/core/config_player.py", "ConfigPlayer.show_play_callback")
+    chk.analysed(spc)
+    pc_ = [c for c in spc.calls() if call_attr(c) == "play" and dotted(c.func.value) == "self"]
+    kw_ = {k.arg: src(k.value) for c in pc_ for k in c.keywords}
+    chk.ob("FWD-17", "a show step hands its nominal time to the players it drives (start_time=start_time)", len(pc_) == 1 and kw_.get("start_time") == "start_time" and
+           "start_time" in [a.arg for a in spc.node.args.args], spc.where(pc_[0]) if pc_ else spc.where(), detail=str(kw_), construct=spc.ident, text="step time handed to players")
     from sa.rules.c09 import _suppression as _c09_suppression
     _c09_suppression(chk, repo)
 
@@ -768,6 +776,7 @@ def _token_cache(chk, repo):
 def battery():
     from sa.battery import M
     return [
+        M("step time not handed to the players", "mpf/core/config_player.py", "show_tokens=show_tokens, context=context, start_time=start_time)", "show_tokens=show_tokens, context=context)", "FWD-17"),
         M("remembered fade compared by its start colour", "mpf/devices/light.py", "target_color == self._last_fade_target[2]", "target_color == self._last_fade_target[0]", "SUPP-1"),
         M("conditional show stopped under the subscription key", "mpf/config_players/show_player.py", "                self._stop(show_key, instance_dict, show.name, show_settings, False, None, {})", "                self._stop(key, instance_dict, show.name, show_settings, False, None, {})", "SUBS-17"),
         M("step time rounded to ms", SH, "        time_to_next_step = self.show_steps[self.current_step_index]['duration'] / self.show_config.speed", "        time_to_next_step = round(self.show_steps[self.current_step_index]['duration'] / self.show_config.speed, 3)", "DOM-31"),
